@@ -284,6 +284,11 @@ def run(c):
     c.cov['evaluations'] += rr_stats.get('replays', 0)
     c.cov['reset_race'] = rr_stats.get('cov', {})
     c.notes['reset_race'] = rr_stats
+    # ---------------------------------------------------------------- 4c. destruction against the timer thread (section "destroy race" below)
+    dr_fail, dr_dis, dr_stats = destroy_race(c, vdriver, quick, broken)
+    c.cov['evaluations'] += dr_stats.get('replays', 0)
+    c.cov['destroy_race'] = dr_stats.get('cov', {})
+    c.notes['destroy_race'] = dr_stats
     c.cov['distinct_nontrivial'] = len(nontriv) + td_stats['nontrivial'] + cu_stats['nontrivial']
     c.cov['rule'] = ('API sequences: corpus + all sequences over {step, receive(e1), cancel, reset, destroy} up to length %d from 4 life-cycle '
                      'points (fresh, idle, inside a macrostep, around CANCELLED/FINISHED) on 6 charts x 2 engines + %d seeded random sequences '
@@ -299,8 +304,8 @@ def run(c):
     c.notes['cancel_unblocks'] = cu_stats
 
     # ---------------------------------------------------------------- 5. classify
-    allfails = fails + td_fail + cu_fail + rr_fail
-    alldis = disagreements + td_dis + cu_dis + rr_dis
+    allfails = fails + td_fail + cu_fail + rr_fail + dr_fail
+    alldis = disagreements + td_dis + cu_dis + rr_dis + dr_dis
     c.cov['oracle_failures'] = len(allfails)
     c.cov['disagreements'] = len(alldis)
     byclass = {}
@@ -655,4 +660,165 @@ def reset_race(c, vdriver, quick, broken):
     stats['samples'] = [{'cmd': res[i][0], 'impl': res[i][1], 'model': mout[i]} for i in (0, 1, len(cases) - 1) if i < len(cases)]
     log('C10 reset race: order %s locks=%s, %d schedules, %d oracle failures, %d disagreements (%.1fs)' %
         (','.join(order) or '-', locks, len(cases), len(fails), len(dis), time.time() - t_start))
+    return fails, dis, stats
+
+
+# ================================================================== destroy race (work package rr, follow-up) ======
+# ~InterpreterImpl() against the timer thread: model coq/theories/ResetRaceDestroy.v (theorems destroy_no_use_after_free,
+# destroy_safe_by_member_order, gen_destroy_ok in props/Properties_C10.v), regenerated switches and member order
+# coq/gen/GenDestroyOrder.v (tools/translate/tr_destroyorder.py), extracted model extract/resetrace (commands dgen, dr),
+# implementation side harness/vd_resetrace.cpp (command destroyrace).  Observation without a sanitizer: the schedule
+# point interp.destroy.done (patches/C10-destroy-hooks.diff) at the end of the destructor's body; a callback of the
+# timer thread that passes interp.eventReady.* / delay.callback.delivered AFTER it works on an object whose members are
+# being destroyed.  Thorough tier: the same schedules under valgrind (if installed), invalid accesses are failures.
+
+EXPECT.update({
+    'delivered-after-destruction': 'destruction is safe under every interleaving with the timer thread: no timer callback works on the '
+                                   'interpreter after its destructor body has finished (ResetRaceDestroy.d_after_done / d_fault = false, '
+                                   'theorem destroy_no_use_after_free; a use of freed memory: C09)',
+    'destroy-use-after-free': 'no use of freed memory while an interpreter is destroyed (valgrind memcheck: no invalid read/write)',
+    'destroy-race-hang': 'destroying an interpreter returns in bounded time under every interleaving with the timer thread',
+    'destroy-race-crash': 'destroying an interpreter is safe under every interleaving with the timer thread',
+})
+
+RR_REQUIRE_DESTROY_HOOK = False    # set to True once interp.destroy.done is in /repo: its absence is then an error, not a skip
+
+
+def dr_model_sched(locks, hold):
+    if hold == 'none':
+        return ['D'] * 30
+    if hold == 'locked' and locks:
+        # the callback holds _delayMutex: the destructor waits for it at its lock
+        return ['F', 'T', 'T', 'T'] + ['D'] * 30
+    return ['F', 'T'] + ['D'] * 30 + ['T'] * 3 + ['D'] * 30
+
+
+def dr_impl_class(d):
+    if d['_hang']:
+        return 'hang'
+    if d['_crash'] or not d['_end']:
+        return 'crash'
+    if d.get('pre') != 'ok':
+        return 'inconclusive'
+    if d.get('after_done', '-') != '-':
+        return 'after-destruction'
+    return 'clean' if d.get('destroyed') == '1' else 'hang'
+
+
+def destroy_race(c, vdriver, quick, broken):
+    t_start = time.time()
+    stats = {'replays': 0, 'cov': {}}
+    tmeta = c.notes.get('translators', {}).get('tr_destroyorder', {})
+    stats['translator'] = tmeta
+    try:
+        rmodel = ensure_vmodel('resetrace')
+    except BuildError as e:
+        broken.append({'name': 'extract/resetrace (the destroy-race model does not build)', 'ok': False, 'why': str(e)[-600:]})
+        stats['skipped'] = 'model does not build'
+        return [], [], stats
+    rc, g, _ = run_lines(rmodel, ['dgen'])
+    gen = dict(kv.split('=') for kv in g[0].split()) if g and '=' in g[0] else {}
+    stats['generated'] = gen
+    if 'error' in tmeta or gen.get('ok') != '1':
+        log('C10 destroy race: tr_destroyorder could not read ~InterpreterImpl(): %s' % tmeta.get('error'))
+    else:
+        tr = {'locks': '1' if tmeta.get('locks_targets') else '0', 'drops_al': '1' if tmeta.get('drops_al') else '0',
+              'joins': '1' if tmeta.get('joins_in_body') else '0'}
+        if any(gen.get(k_) != v_ for k_, v_ in tr.items()):
+            broken.append({'name': 'GenDestroyOrder.v (the compiled Coq file is not what tr_destroyorder.py produced)', 'ok': False,
+                           'why': 'translator %s, compiled %s' % (tmeta, gen)})
+    locks = gen.get('locks') == '1'
+    probe_line = 'destroyrace default ext none 0 15 60'
+    rc, po, _ = run_lines(vdriver, [probe_line])
+    if not po or po[0].startswith('ERR unknown command'):
+        broken.append({'name': 'harness/vd_resetrace.cpp (destroyrace: does not compile against the working tree)', 'ok': False, 'why': str(po)})
+        stats['skipped'] = 'harness command missing'
+        return [], [], stats
+    pd = rr_parse(po[0])
+    stats['probe'] = {'cmd': probe_line, 'answer': po[0]}
+    stats['cov']['hook_present'] = pd.get('done_seen') == '1'
+    if pd.get('done_seen') != '1':
+        msg = 'the schedule point interp.destroy.done is not in this tree (patches/C10-destroy-hooks.diff): a callback after the destructor body cannot be observed, section skipped'
+        log('C10 destroy race: ' + msg)
+        stats['skipped'] = msg
+        if RR_REQUIRE_DESTROY_HOOK:
+            broken.append({'name': 'destroy race replay (hook point missing)', 'ok': False, 'why': msg})
+        return [], [], stats
+
+    engines = ('default', 'fast') if quick else ('default', 'large', 'fast')
+    reps = 1 if quick else 4
+    cases = [(eng, kind, hold, alref) for eng in engines for kind in ('ext', 'int') for hold in ('none', 'unlocked', 'locked')
+             for alref in (0, 1) for _ in range(reps)]
+    mlines = ['dr gen gen %s %d %s' % ('d' if kind == 'ext' else 'e', alref, ','.join(dr_model_sched(locks, hold)))
+              for eng, kind, hold, alref in cases]
+    mout, _ = run_lines_sharded(rmodel, mlines)
+    res = [None] * len(cases)
+    todo = list(range(len(cases)))
+    attempts = 0
+    for delay, hold_ms in ((15, 60), (80, 100), (300, 150)):
+        if not todo:
+            break
+        attempts += 1
+        lines = ['destroyrace %s %s %s %d %d %d' % (cases[i][0], cases[i][1], cases[i][2], cases[i][3], delay, hold_ms) for i in todo]
+        out, _ = run_lines_sharded(vdriver, lines, shards=min(NCPU, 8))
+        nxt = []
+        for i, l, o in zip(todo, lines, out):
+            d = rr_parse(o)
+            cls = dr_impl_class(d)
+            res[i] = (l, o, d, cls)
+            stats['replays'] += 1
+            if cls == 'inconclusive':
+                nxt.append(i)
+        todo = nxt
+    fails, dis = [], []
+    classes = {}
+    released = {}
+    for (eng, kind, hold, alref), m, (l, o, d, cls) in zip(cases, mout, res):
+        md = dict(kv.split('=') for kv in m.split() if '=' in kv)
+        mcls = md.get('class', 'unknown')
+        classes[(hold, alref, cls, mcls)] = classes.get((hold, alref, cls, mcls), 0) + 1
+        released[d.get('released_by', '?')] = released.get(d.get('released_by', '?'), 0) + 1
+        what = {'none': 'a delayed send pending', 'unlocked': 'the timer callback held at delay.callback.unlocked (past its critical section)',
+                'locked': 'the timer callback held at interp.eventReady.locked (inside eventReady, holding _delayMutex)'}[hold]
+        det = {'cmd': l, 'observed': o, 'model': m,
+               'schedule': 'interpreter destroyed on a second thread with %s%s; the callback released 20 ms after interp.destroy.done or when the hold expired'
+                           % (what, ', getActionLanguage() called before' if alref else '')}
+        ops = [hold, 'alref=%d' % alref]
+        if cls == 'after-destruction':
+            fails.append(('delivered-after-destruction', 'destroyrace:%s' % kind, eng, ops, det))
+        elif cls in ('hang', 'crash'):
+            fails.append(('destroy-race-' + cls, 'destroyrace:%s' % kind, eng, ops, det))
+        elif cls == 'inconclusive':
+            dis.append(('destroyrace:' + kind, eng, ops, o, 'schedule not established in %d attempts' % attempts))
+        elif mcls not in ('unknown', cls):
+            dis.append(('destroyrace:' + kind, eng, ops, o, m))
+    memcheck = None
+    if not quick and shutil.which('valgrind'):
+        # the in-flight schedules once more under memcheck (the forked child is followed)
+        vl = ['destroyrace default %s unlocked %d 15 200' % (kind, alref) for kind in ('ext', 'int') for alref in (0, 1)]
+        import subprocess
+        try:
+            p = subprocess.run(['valgrind', '-q', '--trace-children=no', '--child-silent-after-fork=no', vdriver],
+                               input=('\n'.join(vl) + '\n').encode(), stdout=subprocess.PIPE, stderr=subprocess.PIPE, timeout=900,
+                               env=dict(os.environ, USCXML_NOCACHE_FILES='true'))
+            err = p.stderr.decode('utf-8', 'replace')
+            bad = [ln for ln in err.split('\n') if 'Invalid read' in ln or 'Invalid write' in ln or 'Invalid free' in ln]
+            memcheck = {'cases': len(vl), 'invalid_accesses': len(bad), 'rc': p.returncode}
+            stats['replays'] += len(vl)
+            if bad:
+                i0 = err.find(bad[0])
+                fails.append(('destroy-use-after-free', 'destroyrace:memcheck', 'default', ['unlocked'],
+                              {'cmd': vl[0], 'observed': err[max(0, i0 - 100):i0 + 2500], 'model': '-',
+                               'schedule': 'valgrind -q vdriver < the destroyrace unlocked schedules'}))
+        except Exception as e:   # valgrind present but unusable: noted, not a verdict
+            memcheck = {'error': str(e)[-300:]}
+    stats.update({'switches': gen, 'engines': list(engines), 'attempts': attempts, 'memcheck': memcheck,
+                  'outcome_classes': {'%s alref=%d impl=%s model=%s' % k_: v for k_, v in sorted(classes.items())},
+                  'oracle_failures': len(fails), 'disagreements': len(dis), 'wall_s': round(time.time() - t_start, 2)})
+    stats['cov'].update({'schedules_replayed': len(cases), 'callback_released_by': released, 'outcome_classes': stats['outcome_classes'],
+                         'generated_switches': {k_: gen.get(k_) for k_ in ('locks', 'drops_al', 'joins', 'members', 'safe', 'safe_by_order')},
+                         'memcheck': memcheck})
+    stats['samples'] = [{'cmd': res[i][0], 'impl': res[i][1], 'model': mout[i]} for i in (0, 2, len(cases) - 1) if i < len(cases)]
+    log('C10 destroy race: switches locks=%s drops_al=%s joins=%s, %d schedules, %d oracle failures, %d disagreements (%.1fs)' %
+        (gen.get('locks'), gen.get('drops_al'), gen.get('joins'), len(cases), len(fails), len(dis), time.time() - t_start))
     return fails, dis, stats
